@@ -281,6 +281,38 @@ def check(ctx, report):
                     report.add('C14.R6', '%s@mapping[%s]' % (f.construct, var),
                                'the items of %s are rendered as a mapping keyed by their kind: two items of the same kind collapse into one '
                                '(the rendering silently drops data)' % ast.unparse(loops[0].iter))
+    from .c16 import hex_rendering
+    hex_rendering(ctx, report, rule='C14.R3')
+    # ---- R7: rendering never runs a partial codec over field values (a strict encode / decode of data raises for some values:
+    # the idna codec rejects empty and over-long labels, ascii rejects non-ASCII text)
+    report.rule('C14.R7', 'serialiser functions apply no strict text codec to field values')
+    for c, f in ser_funcs:
+        if f.name not in ('_asdict', '_as_markdown', 'as_json', 'as_markdown', 'host_key_asdict', '__str__', '__repr__') and c is not ser:
+            continue
+        for n in ast.walk(f.node):
+            if not isinstance(n, ast.Call):
+                continue
+            fn = ast.unparse(n.func)
+            codec = None
+            if fn.endswith(('.encode', '.decode')) and not isinstance(n.func.value, ast.Constant):
+                args = [a.value for a in n.args if isinstance(a, ast.Constant)] + [k.value.value for k in n.keywords if isinstance(k.value, ast.Constant)]
+                lenient = any(a in ('ignore', 'replace', 'backslashreplace', 'xmlcharrefreplace') for a in args)
+                codec = None if lenient else (args[0] if args else 'utf-8')
+                if codec in ('utf-8', 'utf8') and fn.endswith('.encode'):
+                    codec = None            # every str encodes to UTF-8
+            elif fn in ('six.ensure_binary', 'six.ensure_text', 'six.ensure_str') and len(n.args) >= 2 and isinstance(n.args[1], ast.Constant):
+                lenient = len(n.args) > 2 and isinstance(n.args[2], ast.Constant) and n.args[2].value in ('ignore', 'replace')
+                codec = None if lenient else n.args[1].value
+                src = n.args[0]
+                if isinstance(src, ast.Call) and 'b64encode' in ast.unparse(src.func) or isinstance(src, ast.Call) and 'hexlify' in ast.unparse(src.func):
+                    codec = None            # base64 / hex digits are ASCII by construction
+            if codec is None:
+                continue
+            report.count('C14.R7')
+            report.add('C14.R7', '%s@codec[%s]' % (f.construct, codec),
+                       '%s applies the strict %r codec to a field value while rendering: values the parser and the validators accept (empty or over-long '
+                       'labels, non-ASCII text) make the serialisation raise' % (ast.unparse(n)[:60], codec))
+    report.count('C14.R7', len(ser_funcs), nontrivial=0)
     # ---- R4
     for c in model.repo_classes():
         f = c.methods.get('_asdict')
